@@ -85,6 +85,14 @@ def stage(dest, crate, bytes_model="len", cap=2, qcap=2, max_clients=None, repla
     ct, n = re.subn(r'(?m)^log\s*=\s*"([^"]+)"\s*$', r'log = { version = "\1", features = ["max_level_off"] }', ct)
     if n != 1:
         raise StageError("cannot patch the log dependency of %s" % crate)
+    if models and crate == "renetcode":
+        ct, n = re.subn(r'(?m)^chacha20poly1305\s*=.*$', "", ct)
+        if n != 1:
+            raise StageError("cannot drop the chacha20poly1305 dependency of the staged renetcode")
+    if models and crate == "renet":
+        ct, n = re.subn(r'(?m)^bytes\s*=.*$', "", ct)
+        if n != 1:
+            raise StageError("cannot drop the bytes dependency of the staged renet")
     ct += '\n[lints.rust]\nunexpected_cfgs = { level = "allow", check-cfg = ["cfg(kani)"] }\n'
     _write(os.path.join(dst_crate, "Cargo.toml"), ct)
 
@@ -126,7 +134,7 @@ def stage(dest, crate, bytes_model="len", cap=2, qcap=2, max_clients=None, repla
             shutil.copy(hsrc, hdst)
             if not s.endswith("\n"):
                 s += "\n"
-            s += '#[cfg(kani)]\n#[path = "%s"]\nmod verif_kani;\n' % hdst
+            s += '#[cfg(kani)]\n#[path = "%s"]\npub(crate) mod verif_kani;\n' % hdst
             info["harness_files"].append(rel)
         if rel == "lib.rs":
             s += '\n#[allow(dead_code, unused_imports, static_mut_refs)]\n#[path = "verif_models.rs"]\npub(crate) mod verif_models;\n'
